@@ -32,6 +32,7 @@ type shutCase struct {
 	Workers []string `json:"workers,omitempty"`
 	After   int      `json:"after,omitempty"` // shut down after this many completed client calls
 	Seed    int64    `json:"seed,omitempty"`
+	Cp      bool     `json:"cp,omitempty"` // feedDeliver / dropFeed: the feed has a CheckpointPrefix
 }
 
 type shutResult struct {
@@ -122,6 +123,9 @@ func runShutdownScenario(c shutCase) (res shutResult) {
 			col = 1
 		}
 		args := sgbucket.FeedArguments{ID: "f", Backfill: sgbucket.FeedNoBackfill, Terminator: make(chan bool), DoneChan: feedDone}
+		if c.Cp {
+			args.CheckpointPrefix = "cp20"
+		}
 		_ = w.RColl(0, col).StartDCPFeed(ctx, args, func(sgbucket.FeedEvent) bool {
 			s.onHook("feed.callback", w.Name)
 			return true
@@ -364,6 +368,7 @@ func genShutCase(rt *rapid.T) shutCase {
 		c.Shutdown = "DropDataStore"
 	}
 	c.Release = pick(rt, []string{"after", "after", "before"}, "release")
+	c.Cp = (c.Kind == "feedDeliver" || c.Kind == "dropFeed") && chance(rt, 50, "cp")
 	return c
 }
 
